@@ -94,8 +94,15 @@ def mh_proposal(key, model_state, step_size):
     return gs.MHProposal({"b": b + step_size * z}, log_correction=0.25 * step_size * z)
 
 
-def make_kernel(kind, keys=None, da=DA, **kw):
+def make_kernel(kind, keys=None, da=DA, late=False, **kw):
+    """late=True: the dual-averaging constants are assigned as attributes AFTER construction (kernel.da_target_accept = ...), the way a user
+    re-configures a kernel object; the kernel must adapt with the constants it carries at the time of the call"""
     import liesel.goose as gs
+    if late:
+        k = make_kernel(kind, keys, {}, False, **kw)
+        for a_, v_ in da.items():
+            setattr(k, a_, v_)
+        return k
     keys = keys or {"rw": ["b", "a"], "mh": ["b"], "iwls": ["b"], "hmc": ["b", "a"], "nuts": ["b", "a"]}[kind]
     if kind == "rw":
         k = gs.RWKernel(keys, **da, **kw)
